@@ -10,6 +10,7 @@ class Stub:
         self.budget = budget
         self.calls = 0
         self.kind = "EXECUTE"
+        self.conf = 0.9
 
     def express(self, signal):
         from operon_ai.core.types import ActionProtein
@@ -17,7 +18,7 @@ class Stub:
         self.budget.consume(1, "stub")
         if self.kind == "RAISE":
             raise RuntimeError("agent crashed")
-        return ActionProtein(self.kind, "payload-of-%s" % self.name, 0.9)
+        return ActionProtein(self.kind, "payload-of-%s" % self.name, self.conf)
 
 
 def make_loop(logic, breaker, threshold=5, timeout=60.0, cache=True):
